@@ -7,9 +7,16 @@ import (
 	"fmt"
 	"runtime"
 	"sync"
+	"sync/atomic"
 	"testing"
 	"time"
 )
+
+// a leader parked by hook H10 between the end of its function and the cleanup of its call
+type vpark71 struct {
+	arrived chan struct{}
+	resume  chan struct{}
+}
 
 // C13: the real Group.Do with scripted loaders.  The loader itself is the leader's yield point;
 // joiners are detected through the record's dups counter.
@@ -28,6 +35,17 @@ func TestVerifFlight(t *testing.T) {
 	defer tr.close()
 	r := &vrng{s: vseed()*160481183 + 53}
 	ncases := vscale(200, 6000)
+	var slot atomic.Pointer[vpark71]
+	hook := func(pc int) {
+		if pc == 71 {
+			if s := slot.Swap(nil); s != nil {
+				s.arrived <- struct{}{}
+				<-s.resume
+			}
+		}
+	}
+	VerifYield.Store(&hook)
+	defer VerifYield.Store(nil)
 	for c := 0; c < ncases; c++ {
 		g := NewGroup[int, int]()
 		tr.init(7)
@@ -74,6 +92,11 @@ func TestVerifFlight(t *testing.T) {
 						mu.Unlock()
 						started <- struct{}{}
 						oc := <-p.release
+						if oc[0] >= 10 {
+							// what LoadingStore.Get does at the end of its function: forget the key, then return
+							g.Forget(key)
+							oc[0] -= 10
+						}
 						mu.Lock()
 						loaderRunning[key]--
 						mu.Unlock()
@@ -156,7 +179,43 @@ func TestVerifFlight(t *testing.T) {
 			}
 			val++
 			v := val
-			lead.release <- [2]int{oc, v}
+			forget := r.chance(50)
+			late := 0
+			if r.chance(40) {
+				late = 1 + r.intn(2)
+			}
+			var park *vpark71
+			if late > 0 {
+				park = &vpark71{arrived: make(chan struct{}, 1), resume: make(chan struct{})}
+				slot.Store(park)
+			}
+			code := oc
+			if forget {
+				code += 10
+			}
+			lead.release <- [2]int{code, v}
+			if forget {
+				tr.op("forget", ss("5", i64(int64(lead.id))), nil)
+			}
+			tr.op("ran", ss("1", i64(int64(lead.id)), i64(int64(oc)), i64(int64(v))), nil)
+			if late > 0 {
+				select {
+				case <-park.arrived:
+				case <-time.After(5 * time.Second):
+					tr.viol(fmt.Sprintf("C13: the leader of key %d never reached its cleanup after its loader ended with outcome %d", key, oc))
+					slot.Store(nil)
+					broken = true
+					return
+				}
+				// the window of defect F17: the function has ended, the call is not cleaned up yet
+				if forget {
+					delete(active, key) // nobody is registered: a newcomer leads
+				}
+				for i := 0; i < late && !broken; i++ {
+					enter(key)
+				}
+				close(park.resume)
+			}
 			var res [2]int
 			select {
 			case res = <-lead.done:
@@ -165,7 +224,6 @@ func TestVerifFlight(t *testing.T) {
 				broken = true
 				return
 			}
-			tr.op("ran", ss("1", i64(int64(lead.id)), i64(int64(oc)), i64(int64(v))), nil)
 			tr.op("finish", ss("2", i64(int64(lead.id))), ss(i64(int64(res[0])), i64(int64(res[1]))))
 			want := v
 			if oc != 0 {
@@ -185,13 +243,15 @@ func TestVerifFlight(t *testing.T) {
 					tr.viol(fmt.Sprintf("joiner %d of key %d never returned", j.id, key))
 				}
 			}
-			delete(active, key)
+			if active[key] == lead {
+				delete(active, key)
+			}
 			delete(joiners, lead)
 			g.mu.Lock()
 			_, still := g.m[key]
 			g.mu.Unlock()
 			tr.op("registered", ss("4", i64(int64(key))), ss(b2s(still)))
-			if still {
+			if still && active[key] == nil {
 				tr.viol(fmt.Sprintf("key %d still registered after its load ended with outcome %d", key, oc))
 			}
 		}
